@@ -43,10 +43,11 @@ def run(tier, seed, replay=None):
     rows = progs.config_table()
     proof_ok = C.proof_part(rep, "IR/Properties_C13.v", ["Generated/Builtins.vo", "IR/Diff.vo", "IR/DiffProofs.vo"], ["IR", "Types", "Generated"])
     langs = {l: T.Lang(l) for l in T.LANGS}
-    nper = int(os.environ.get("VERIF_C13_N", "5")) if tier == "quick" else 150
+    nper = int(os.environ.get("VERIF_C13_N", "4")) if tier == "quick" else 150
     tmpd = tempfile.mkdtemp(prefix="c13-")
     pairs = []          # (lang, seed, stage, L, nA, nB, serB)
     text_diff, bytes_unstable, redump_diff, crashes = [], [], [], []
+    fuzz_done, fuzz_rejected, fuzz_unserialisable = [0], [0], [0]
     saved = {}
     t0 = time.time()
 
@@ -54,6 +55,9 @@ def run(tier, seed, replay=None):
         out = {}
         for l2, cls in TR.items():
             try:
+                # the Java and Groovy translators draw random numbers (known finding C11-groovy-rng); on trees of another
+                # language even the outcome can depend on them, so both lineages are translated from the same random state
+                U.random.r.seed(20260923)
                 out[l2] = U.translate_program(cls("src.pkg", {}), p)
             except Exception as e:      # noqa: BLE001  (translating a program to a foreign language may fail: C18's subject)
                 out[l2] = "EXC %s" % type(e).__name__
@@ -74,6 +78,7 @@ def run(tier, seed, replay=None):
                 try:
                     a = progs.generate(lang, sd)
                     b, _ = roundtrip(a, "g")
+                    prev_file, prev_tree = os.path.join(tmpd, "g.bin"), None
                     for stage in ("generated", "erased", "overwritten"):
                         if stage != "generated":
                             cls = TypeErasure if stage == "erased" else TypeOverwriting
@@ -86,7 +91,17 @@ def run(tier, seed, replay=None):
                             (a, ta, ea), (b, tb, eb) = res
                             if (ta, ea) != (tb, eb):
                                 text_diff.append((lang, sd, stage, "is_transformed / error_injected differ: %r vs %r" % ((ta, ea), (tb, eb))))
+                            # loading the file saved at the previous stage once more must give the program saved then, although
+                            # the object loaded from it first has been mutated since (what --replay with several iterations does)
+                            if prev_tree is not None:
+                                again = U.load_program(prev_file)
+                                sx = ir2coq.Ser(L, again)
+                                sx.names, sx.classes, sx.tvars = dict(prev_names[0]), dict(prev_names[1]), dict(prev_names[2])
+                                nx = sx.prog()
+                                pairs.append((lang, sd, prev_stage + "-loaded-again", L, prev_tree, nx))
+                                saved[(lang, sd, prev_stage + "-loaded-again")] = pickle.dumps(again)
                             b, _ = roundtrip(b, stage[0])
+                            prev_file = os.path.join(tmpd, stage[0] + ".bin")
                         # the stage's comparison
                         sa = ir2coq.Ser(L, a)
                         na = sa.prog()
@@ -95,6 +110,7 @@ def run(tier, seed, replay=None):
                         nb = sb.prog()
                         pairs.append((lang, sd, stage, L, na, nb))
                         saved[(lang, sd, stage)] = pickle.dumps(b)
+                        prev_tree, prev_stage, prev_names = nb, stage, (dict(sa.names), dict(sa.classes), dict(sa.tvars))
                         ta_, tb_ = texts(a), texts(b)
                         for l2 in TR:
                             if ta_[l2] != tb_[l2]:
@@ -110,49 +126,87 @@ def run(tier, seed, replay=None):
                             redump_diff.append((lang, sd, stage))
                 except Exception as e:          # noqa: BLE001
                     crashes.append((lang, sd, "%s: %s" % (type(e).__name__, str(e)[:150])))
+        # directed stream: random trees of the real ast classes with real Contexts (the fuzzers of the translator models):
+        # lambdas with local functions, nested classes of functions, empty namespaces ... shapes the generator rarely emits
+        import random as _random
+        import ir2print as P
+        import ir2print_scala as PS
+        import fuzz_java as FJ
+        import fuzz_groovy as FG
+        mk = {"kotlin": lambda r: P.Fuzz(r).program(), "scala": lambda r: PS.FuzzScala(r).program(),
+              "java": lambda r: FJ.JFuzz(r).program(), "groovy": lambda r: FG.GFuzz(r).program()}
+        nfz = int(os.environ.get("VERIF_C13_F", "15")) if tier == "quick" else 600
+        for lang in T.LANGS:
+            L = langs[lang]
+            for s in range(nfz):
+                sd = C.sub_seed(seed, "c13fuzz", lang, s) % (2 ** 31)
+                try:
+                    a = mk[lang](_random.Random(sd))
+                    ta_ = texts(a)
+                    if ta_[lang].startswith("EXC"):
+                        fuzz_rejected[0] += 1
+                        continue
+                    b, _ = roundtrip(a, "f")
+                    tb_ = texts(b)
+                    fuzz_done[0] += 1
+                    for l2 in TR:
+                        if ta_[l2] != tb_[l2] and not (ta_[l2].startswith("EXC") and tb_[l2].startswith("EXC")):
+                            saved[(lang, sd, "tree")] = pickle.dumps(b)
+                            text_diff.append((lang, sd, "tree", "the %s text of the reloaded directed tree differs" % l2))
+                    try:
+                        sa = ir2coq.Ser(L, a)
+                        na = sa.prog()
+                        sb = ir2coq.Ser(L, b)
+                        sb.names, sb.classes, sb.tvars = dict(sa.names), dict(sa.classes), dict(sa.tvars)
+                        pairs.append((lang, sd, "tree", L, na, sb.prog()))
+                        saved[(lang, sd, "tree")] = pickle.dumps(b)
+                    except Exception:       # noqa: BLE001  (the IR serialiser is fail-closed on shapes the generator cannot produce)
+                        fuzz_unserialisable[0] += 1
+                except Exception as e:          # noqa: BLE001
+                    crashes.append((lang, sd, "tree %s: %s" % (type(e).__name__, str(e)[:120])))
     finally:
         shutil.rmtree(tmpd, ignore_errors=True)
     t_gen = time.time() - t0
     hdr = W.HDR.replace("IR.Check", "IR.Check IR.Diff IR.DiffProofs")
     per = 6
-    files = []
-    for k in range(0, len(pairs), per):
-        chunk = pairs[k:k + per]
-        body = "".join("Definition a%d : node := %s.\nDefinition b%d : node := %s.\n" % (j, ir2coq.coq_node(c[4]), j, ir2coq.coq_node(c[5]))
-                       for j, c in enumerate(chunk))
-        text = hdr + body + "\nEval vm_compute in [%s].\n" % "; ".join(
-            "match type_changes [] a%d b%d with Some [] => 1 | _ => 0 end" % (j, j) for j in range(len(chunk)))
-        files.append(("c13_%d" % (k // per), text))
-    C.clean_cases("c13_")
-    res = C.run_case_files(files, timeout=1800)
-    equal = {}
-    for k, (name, _) in zip(range(0, len(pairs), per), files):
-        rc, out = res[name]
-        if rc != 0:
-            rep.violation("case-file", "case file %s did not evaluate: %s" % (name, out[-500:]), dict(broken=name, log=out[-3000:]), no_input=True)
-            continue
-        vals = C.parse_nat_list(C.parse_eval_outputs(out)[-1])
-        for j, v in enumerate(vals):
-            equal[k + j] = (v == 1)
-    # kernel certificates for the equal pairs
-    good = [i for i in range(len(pairs)) if equal.get(i)]
-    cfiles = []
-    for k in range(0, len(good), per):
-        idx = good[k:k + per]
-        body = "".join("Definition a%d : node := %s.\nDefinition b%d : node := %s.\n" % (j, ir2coq.coq_node(pairs[i][4]), j, ir2coq.coq_node(pairs[i][5]))
+
+    def defs(idx):
+        return "".join("Definition a%d : node := %s.\nDefinition b%d : node := %s.\n" % (j, ir2coq.coq_node(pairs[i][4]), j, ir2coq.coq_node(pairs[i][5]))
                        for j, i in enumerate(idx))
-        body += "".join("Theorem reloaded_%d : a%d = b%d.\nProof. apply (proj1 (type_changes_nil_iff [] a%d b%d)). vm_compute. reflexivity. Qed.\n"
-                        % (j, j, j, j, j) for j in range(len(idx)))
-        cfiles.append(("c13c_%d" % (k // per), hdr + body, len(idx)))
+    # pass 1: the kernel certificates themselves (one theorem per pair); a file that fails is re-evaluated pair by pair
+    cfiles = []
+    for k in range(0, len(pairs), per):
+        idx = list(range(k, min(k + per, len(pairs))))
+        body = defs(idx) + "".join("Theorem reloaded_%d : a%d = b%d.\nProof. apply (proj1 (type_changes_nil_iff [] a%d b%d)). vm_compute. reflexivity. Qed.\n"
+                                   % (j, j, j, j, j) for j in range(len(idx)))
+        cfiles.append(("c13c_%d" % (k // per), hdr + body, idx))
+    C.clean_cases("c13")
     res2 = C.run_case_files([(n_, t_) for n_, t_, _ in cfiles], timeout=1800)
+    equal = {}
     ncert = 0
-    for n_, t_, cnt in cfiles:
+    retry = []
+    for n_, t_, idx in cfiles:
         rc, out = res2[n_]
         if rc == 0:
-            ncert += cnt
+            ncert += len(idx)
+            for i in idx:
+                equal[i] = True
         else:
-            rep.violation("certificate", "kernel did not accept the certificates of %s: %s" % (n_, out[-400:]), dict(broken=n_, log=out[-2000:]),
-                          no_input=True)
+            retry.append((n_.replace("c13c_", "c13e_"), idx))
+    efiles = [(n_, hdr + defs(idx) + "\nEval vm_compute in [%s].\n" % "; ".join(
+        "match type_changes [] a%d b%d with Some [] => 1 | _ => 0 end" % (j, j) for j in range(len(idx)))) for n_, idx in retry]
+    res = C.run_case_files(efiles, timeout=1800) if efiles else {}
+    for (n_, idx) in retry:
+        rc, out = res[n_]
+        if rc != 0:
+            rep.violation("case-file", "case file %s did not evaluate: %s" % (n_, out[-500:]), dict(broken=n_, log=out[-3000:]), no_input=True)
+            continue
+        vals = C.parse_nat_list(C.parse_eval_outputs(out)[-1])
+        for i, v in zip(idx, vals):
+            equal[i] = (v == 1)
+        if all(v == 1 for v in vals):
+            rep.violation("certificate", "kernel did not accept the certificates of %s although the pairs evaluate as equal" % n_,
+                          dict(broken=n_), no_input=True)
     C.clean_cases("c13")
     os.makedirs(os.path.join(C.REPLAYS, "C13"), exist_ok=True)
 
@@ -179,7 +233,9 @@ def run(tier, seed, replay=None):
             texts_compared=4 * len(pairs), text_differences=len(text_diff), redump_tree_differences=len(redump_diff),
             redump_bytes_not_identical=len(bytes_unstable), exceptions=len(crashes), exception_samples=[list(c) for c in crashes[:5]],
             generation_s=round(t_gen, 1),
-            stage_histogram={st: sum(1 for p_ in pairs if p_[2] == st) for st in ("generated", "erased", "overwritten")},
+            stage_histogram={st: sum(1 for p_ in pairs if p_[2] == st) for st in sorted({p_[2] for p_ in pairs})},
+            directed_trees=fuzz_done[0], directed_trees_rejected_by_their_translator=fuzz_rejected[0],
+            directed_trees_not_serialisable_for_the_tree_comparison=fuzz_unserialisable[0],
             rule="programs of the four languages; lineage A is never saved, lineage B goes through utils.dump_program / load_program at every "
                  "stage and is mutated from the reloaded object under the same random seed; per stage the kernel proves ser(A) = ser(B)",
             samples=[dict(lang=p_[0], seed=p_[1], stage=p_[2]) for p_ in pairs[:3]],
